@@ -103,6 +103,10 @@ SIMULATED_TIME = ("each in-process execution reads a simulated clock that "
 # is not part of this property
 RUN_TIMEOUT_S = 240
 TIMEOUT_IS_VIOLATION = False
+# a violation of this property is itself a lack of reproducibility: two
+# executions that draw from an unseeded generator differ almost always, not
+# always (tiny random graphs coincide now and then)
+CONFIRM_TRIES = 6
 CONFIGS = {
     "quick": [("inproc", 1800), ("lib", 6000), ("proc", 130)],
     "thorough": [("inproc", 6), ("lib", 2), ("proc", 3)],
@@ -169,8 +173,19 @@ def generate(rng, config):
     # the seed option in every spelling argparse accepts
     for i, a in enumerate(argv[:-1]):
         if a in ("--seed", "-S"):
-            sp = rng.choice(["plain", "plain", "eq", "glued", "abbrev"])
+            sp = rng.choice(["plain", "plain", "eq", "glued", "abbrev",
+                             "cluster"])
             val = argv[i + 1]
+            if sp == "cluster" and not val.startswith("-"):
+                # the seed at the end of a cluster of short options
+                flag = rng.choice(["q", "v"])
+                rest = [a for a in argv[:i] + argv[i + 2:]
+                        if a not in ("-q", "-v", "--quiet", "--verbose")]
+                argv[:] = [rng.choice(["-%sS" % flag, "-%sS%s" % (flag, val)]
+                                      )] + rest
+                if not argv[0].endswith(val):
+                    argv.insert(1, val)
+                break
             if sp == "eq":
                 argv[i:i + 2] = ["--seed=" + val]
             elif sp == "glued" and not val.startswith("-"):
@@ -178,6 +193,14 @@ def generate(rng, config):
             elif sp == "abbrev":
                 argv[i] = rng.choice(["--see", "--se"])
             break
+    if rng.random() < 0.15:
+        # a long option of the formula or of a transformation, abbreviated
+        # (argparse accepts unique prefixes)
+        longs = [j for j, a in enumerate(argv) if a.startswith("--") and
+                 len(a) > 4 and not a.startswith("--se")]
+        if longs:
+            j = rng.choice(longs)
+            argv[j] = argv[j][:rng.randint(3, len(argv[j]) - 1)]
     if c["outfile"]:
         # keep the formula on stdout: compare bytes there
         i = argv.index("-o")
@@ -334,6 +357,8 @@ def execute(case, ctx):
 
 
 def _has_seed(argv):
+    if argv and argv[0][:2] in ("-q", "-v") and argv[0][2:3] == "S":
+        return True
     for i, a in enumerate(argv):
         if a in ("--seed", "-S", "--see", "--se") and i + 1 < len(argv):
             return True
@@ -408,8 +433,10 @@ def _exec_proc(case, ctx):
         ctx.fault("timezones_26h_apart")
     if case["cwds"][0] != case["cwds"][1]:
         ctx.fault("cwd_varied")
+    # (only what is a function of the case when the property is violated:
+    # the lengths of unreproducible outputs are not)
     ctx.log("proc", tool, argv if tool != "cnfshuffle" else case["argv"],
-            [o[0] for o in outs], [len(o[1]) for o in outs])
+            [o[0] for o in outs])
     ctx.shape = (tool, case["argv"], case.get("input"))
     ctx.nontrivial = bool(case["random"]) and outs[0][0] == 0
     where = "%s %s" % (tool, " ".join(case["argv"]))
